@@ -9,7 +9,7 @@ import os
 import sys
 
 sys.path.insert(0, os.path.dirname(os.path.abspath(__file__)))
-import _rules  # noqa: E402
+import _purerules as _rules  # noqa: E402
 import vlib  # noqa: E402
 
 LEVEL = "model_checking"
